@@ -217,9 +217,115 @@ def rule_counter(cx, fb):
     cx.count()
 
 
+def rule_derive_forwards(cx):
+    """#[derive(Db)] expansions (probe crate): the Database methods forward to Storage on every path, and a
+    #[tracked] field is projected only inside the generated projector closures."""
+    pb = cx.probe()
+    fw = {"get": r"Storage::<Db>::get$", "get_singleton": r"Storage::<Db>::get_singleton$",
+          "set": r"Storage::<Db>::set$", "remove": r"Storage::<Db>::remove$",
+          "remove_singleton": r"Storage::<Db>::remove_singleton$",
+          "run_garbage_collection": r"Storage::<Db>::run_garbage_collection$",
+          "intern_value": r"pico::intern_value$|database::intern_value$",
+          "intern_ref": r"pico::intern_ref$|database::intern_ref$"}
+    n = 0
+    for name, target in sorted(fw.items()):
+        for f in pb.methods(name, impl_for=r"TrackedDb$", trait=r"pico::Database$"):
+            n += 1
+            p = path_without(f, 0, f.return_blocks(), blocks_calling(f, target))
+            cx.ob("R01.derive-forwards", "derive(Db)|Database::%s" % name, p is None,
+                  "the generated Database::%s does not forward to the storage implementation on every path" % name,
+                  "crates/pico_macros/src/db_macro.rs")
+    cx.floor("R01.derive-forwards generated Database methods", n, 8)
+    # tracked field `map` of the probe database: projected only by generated projectors
+    sites = []
+    for f in pb.fns.values():
+        for s in f.stmts():
+            for pl in [s.dst] + s.reads():
+                if pl is not None and "map" in pl.fields() and "TrackedDb" in f.local_ty(pl.local):
+                    sites.append(f)
+    sites = {f.id: f for f in sites}
+    cx.floor("R01.counter projector sites in probe", len(sites), 2)
+    for fid, f in sorted(sites.items()):
+        cx.ob("R01.counter", "derive(Db)|tracked-field-projected-in|" + fid.split("::")[-2],
+              "_PROJECTOR" in fid and f.from_macro("Db"),
+              "a #[tracked] field is read outside the generated projector (bypasses the counter singleton)", fid)
+    # accessors hand out views, never the field
+    for nm, ty in (("get_map", r"pico::View<"), ("get_map_mut", r"pico::MutView<")):
+        f = pb.one(r"probe_tracked::TrackedDb::%s$" % nm)
+        cx.ob("R01.counter", "derive(Db)|%s-returns-view" % nm, re.search(ty, f.ret or "") is not None,
+              "generated accessor must return a View/MutView (counter-tracked access)", f.id)
+
+
+def rule_no_untracked_read(cx):
+    """Workspace: tracked fields of IsographDatabase are projected only by generated projectors or reviewed
+    sites; View::untracked is only called where the caller holds &mut Db (cannot be inside a memoized body)."""
+    fb = cx.mir("isograph_schema", "isograph_compiler", "isograph_lsp", "graphql_network_protocol",
+                "artifact_content")
+    tracked = set()
+    for f in fb.fns.values():
+        if "_PROJECTOR" in f.id and f.from_macro("Db"):
+            for s in f.stmts():
+                for pl in s.reads():
+                    if "IsographDatabase" in f.local_ty(pl.local) and pl.fields():
+                        tracked.add(pl.fields()[0])
+    cx.floor("R01.no-untracked-read tracked fields of IsographDatabase", len(tracked), 3)
+    REVIEWED = {
+        "isograph_schema::isograph_database::IsographDatabase::<TCompilationProfile>::get_schema_source":
+            "reads standard_sources.schema_source_id directly; the id is derived from the schema path (stable key) "
+            "and the function immediately performs the tracked source read db.get(id)",
+    }
+    n = 0
+    for f in fb.fns.values():
+        if "_PROJECTOR" in f.id and f.from_macro("Db"):
+            continue
+        if f.is_derive():
+            continue  # derive(Debug)/derive(Default) on the database struct
+        hit = None
+        for s in f.stmts():
+            for pl in [s.dst] + s.reads():
+                if pl is not None and pl.fields() and pl.fields()[0] in tracked and \
+                        re.search(r"IsographDatabase<", f.local_ty(pl.local)):
+                    hit = s
+        if hit is not None:
+            n += 1
+            fld = [pl for pl in [hit.dst] + hit.reads() if pl is not None and pl.fields() and pl.fields()[0] in tracked][0].fields()[0]
+            # accepted idiom: the same body already performed the tracked read of this very field on every
+            # path to the direct read (get_<field>() ... .tracked() dominates it)
+            acc = blocks_calling(f, r"::get_%s$" % fld)
+            trk = blocks_calling(f, r"View::<.*>::tracked$")
+            dominated = any(f.dominates(a, hit.bb) for a in acc) and any(
+                f.dominates(t, hit.bb) and any(f.dominates(a, t) for a in acc) for t in trk)
+            if dominated:
+                cx.ob("R01.no-untracked-read", f.id + "|direct-field-read", True,
+                      "direct read of tracked field %s is dominated by a tracked read of the same field" % fld,
+                      f.loc(hit.line))
+                continue
+            cx.ob("R01.no-untracked-read", f.id + "|direct-field-read", f.id in REVIEWED,
+                  "a #[tracked] database field is read directly (no counter dependency is registered; a memoized "
+                  "caller is not invalidated when the field changes)", f.loc(hit.line),
+                  detail=REVIEWED.get(f.id))
+    cx.count(n)
+    for t in fb.calls_to(r"View::<.*>::untracked$"):
+        f = t.fn
+        root = fb.fns.get(f.root) if f.root else f
+        has_mut = any(re.match(r"&mut .*IsographDatabase<", l["ty"]) for l in (root or f).locals[1:(root or f).argc + 1])
+        cx.ob("R01.no-untracked-read", f.id + "|untracked-call", has_mut,
+              "View::untracked is called from a function that does not hold &mut Db, so it may run inside a "
+              "memoized body where the read would go unrecorded", f.loc(t.line))
+
+
 def run(cx):
     fb = cx.mir("pico")
     rule_dep_on_read(cx, fb)
     rule_epoch_on_change(cx, fb)
     rule_verify_all_kinds(cx, fb)
     rule_counter(cx, fb)
+    rule_derive_forwards(cx)
+    rule_no_untracked_read(cx)
+    cx.witness_obligations("R01.borrow", [
+        ("W1SourceRefAcrossSet", "a source &T must not be usable after the source is written"),
+        ("W2MemoRefAcrossSet", "a memoized &T must not be usable after a source write"),
+        ("W7SourceRefAcrossRemove", "a source &T must not be usable after remove"),
+        ("W10SingletonRefAcrossRemove", "a singleton reference must not be usable after remove_singleton"),
+        ("W8SetNeedsMut", "writing a source must need exclusive access to the database"),
+    ])
